@@ -212,6 +212,22 @@ func scenarioServer() (bool, string) {
 
 func init() { scenarios["c02-server"] = scenarioServer }
 
+// awaitReply reads until the reply to the request with identifier id arrives (replies to earlier hostile datagrams
+// that happened to be well-formed requests may still be on their way and are skipped)
+func awaitReply(cl net.Conn, buf []byte, id byte, patience time.Duration) error {
+	deadline := time.Now().Add(patience)
+	for {
+		cl.SetReadDeadline(deadline)
+		k, err := cl.Read(buf)
+		if err != nil {
+			return err
+		}
+		if k >= 20 && buf[1] == id {
+			return nil
+		}
+	}
+}
+
 func serverFlood(c *Ctx, r *Rng, n int) {
 	sec := []byte("flood-secret")
 	seen := map[string]int{}
@@ -308,8 +324,7 @@ func serverFlood(c *Ctx, r *Rng, n int) {
 			}
 			cl.Write(d)
 			sent[string(d[4:20])] = append(sent[string(d[4:20])], d)
-			cl.SetReadDeadline(time.Now().Add(3 * time.Second))
-			if k, err := cl.Read(buf); err == nil && k >= 20 && buf[1] == d[1] {
+			if err := awaitReply(cl, buf, d[1], 3*time.Second); err == nil {
 				answered++
 			} else {
 				var prev []string
@@ -527,8 +542,7 @@ func scenarioFloodSkipVerify() (bool, string) {
 			p.Add(1, radius.Attribute("u"))
 			d, _ = p.Encode()
 			cl.Write(d)
-			cl.SetReadDeadline(time.Now().Add(3 * time.Second))
-			if k, err := cl.Read(buf); err != nil || k < 20 || buf[1] != d[1] {
+			if err := awaitReply(cl, buf, d[1], 3*time.Second); err != nil {
 				return false, fmt.Sprintf("after %d datagrams (lengths 0..23, garbage, malformed) the non-verifying server no longer answers a valid request: %v", i, err)
 			}
 			continue
